@@ -412,6 +412,32 @@ impl Cons {
     }
 }
 
+static VERIF_GUARD: std::sync::OnceLock<bool> = std::sync::OnceLock::new();
+static VERIF_LOCK_WAIT_HOOK: std::sync::Mutex<Option<Py<PyAny>>> = std::sync::Mutex::new(None);
+
+/// Return true if the verification hooks are enabled for this process.
+fn verif_enabled() -> bool {
+    *VERIF_GUARD.get_or_init(|| {
+        std::env::var("BASILISP_LANG_BASILISP_VERIF")
+            .map(|v| v == "1")
+            .unwrap_or(false)
+    })
+}
+
+/// Register (or clear, with None) a callable invoked with the address of a LazySeq
+/// whenever its lock is found held by another thread. Verification builds only.
+#[pyfunction]
+#[pyo3(signature = (hook=None))]
+pub fn _verif_set_lock_wait_hook(hook: Option<Py<PyAny>>) -> PyResult<()> {
+    if !verif_enabled() {
+        return Err(pyo3::exceptions::PyRuntimeError::new_err(
+            "verification hooks require BASILISP_LANG_BASILISP_VERIF=1",
+        ));
+    }
+    *VERIF_LOCK_WAIT_HOOK.lock().unwrap() = hook;
+    Ok(())
+}
+
 enum LazySeqState {
     Initialized(Py<PyAny>),
     Computing,
@@ -436,6 +462,24 @@ impl LazySeq {
         &'a self,
         py: Python<'_>,
     ) -> PyResult<parking_lot::ReentrantMutexGuard<'a, RefCell<LazySeqState>>> {
+        // Verification hook (only with BASILISP_LANG_BASILISP_VERIF=1 and a registered
+        // callable): never block on a contended lock, call the hook between attempts
+        // so that a cooperative scheduler can run the thread holding the lock.
+        if verif_enabled() {
+            let hook = VERIF_LOCK_WAIT_HOOK
+                .lock()
+                .unwrap()
+                .as_ref()
+                .map(|h| h.clone_ref(py));
+            if let Some(hook) = hook {
+                loop {
+                    if let Some(guard) = self.lock.try_lock() {
+                        return Ok(guard);
+                    }
+                    hook.call1(py, (self as *const LazySeq as usize,))?;
+                }
+            }
+        }
         Ok(self.lock.lock_py_attached(py))
     }
 }
